@@ -192,6 +192,11 @@ class C11(PropBase):
                     more.append(Case('find_all', [q], 'find', dict(m, finder='all')))
                     more.append(Case('find_list', [L, q], 'find', dict(m, finder='list')))
                     more.append(Case('unfold', [q, '0', '0'], 'unfold', dict(m)))
+                    if qi % 3 == 0 and not any(ch in q for ch in '?:'):
+                        # the same search handed over as a Sid object (built from the plain string)
+                        more.append(Case('find_paths', [default, q, 'sidarg'], 'find', dict(m, finder='paths-sidarg')))
+                        more.append(Case('find_list', [L, q, 'sidarg'], 'find', dict(m, finder='list-sidarg')))
+                        more.append(Case('find_all', [q, 'sidarg'], 'find', dict(m, finder='all-sidarg')))
                 if not with_junk:
                     rng.setstate(state)      # the same searches again with junk injected
         more.append(Case('fs_reset', [], 'setup', {}))
@@ -231,6 +236,13 @@ class C11(PropBase):
                     fails.append((c0, o0, 'finders do not fail alike on %r: %r' % (q, {k: o[:2] if o[0] != 'ok' else 'ok' for k, (_, o) in d.items()})))
                 continue
             res = {k: sorted(o[1]) for k, (c, o) in d.items() if k != 'unfold'}
+            # a Sid object built from the search string denotes the same search
+            for k in list(res):
+                if k.endswith('-sidarg'):
+                    base_k = {'paths-sidarg': 'paths:' + default, 'list-sidarg': 'list', 'all-sidarg': 'all'}[k]
+                    if base_k in res and res[k] != res[base_k]:
+                        fails.append((d[k][0], d[k][1], '%s.find(Sid(%r)) = %r but find(%r) = %r' % (base_k.split(':')[0], q, res[k], q, res[base_k])))
+                    del res[k]
             (uc, uo) = d['unfold']
             utypes = set(x[1] for x in uo[1])
             # local and server trees hold the same entities
@@ -266,7 +278,7 @@ class C11(PropBase):
         return [case.op, case.args] if case.stream == 'find' and impl[0] == 'ok' and impl[1] else None
     def histogram_key(self, case, impl):
         if case.stream == 'find':
-            return '%s:%s' % (case.meta['finder'].split(':')[0], 'raise' if impl[0] != 'ok' else min(len(impl[1]), 3))
+            return '%s:%s' % (case.meta['finder'].split(':')[0].split('-')[0] + ('-sidarg' if 'sidarg' in case.meta['finder'] else ''), 'raise' if impl[0] != 'ok' else min(len(impl[1]), 3))
         return case.stream
 
 PROP = C11()
